@@ -93,7 +93,9 @@ func (r *registry) handleBlobGet(ctx context.Context, resp http.ResponseWriter, 
 		if rng.end == -1 || rng.end > desc.Size {
 			rng.end = desc.Size
 		}
-		if rng.start > desc.Size {
+		if rng.start >= desc.Size {
+			// Note: a range starting exactly at the end holds no bytes
+			// and can't be expressed in a Content-Range header.
 			return withHTTPCode(http.StatusRequestedRangeNotSatisfiable, fmt.Errorf("range starts after end of blob"))
 		}
 		if rng.end < rng.start {
